@@ -61,7 +61,7 @@ fn enc_case(rng: &mut Rng, out: &mut CaseOut) {
     let rate = gen::rate(rng);
     let (k, r, size) = cfg_for(rng, rate);
     let api = gen::api(rng, rate, k, r);
-    let rounds = if k.max(r) > 1000 { 2 } else { *rng.pick(&[1usize, 2, 3, 10, 50]) };
+    let rounds = if k.max(r) > 1000 { 2 } else { *rng.pick(if crate::thorough() { &[1usize, 2, 3, 10, 50, 200][..] } else { &[1usize, 2, 3, 10, 50][..] }) };
     let desc = format!("k={k} r={r} rate={} size={size} api={} rounds={rounds}", rate.name(), api.name());
     let res = guarded(|| {
         let mut enc = match codec::make_enc(api, k, r, size, None) {
@@ -138,7 +138,7 @@ fn dec_case(rng: &mut Rng, out: &mut CaseOut) {
     let rate = gen::rate(rng);
     let (k, r, size) = cfg_for(rng, rate);
     let api = gen::api(rng, rate, k, r);
-    let rounds = if k.max(r) > 1000 { 2 } else { *rng.pick(&[1usize, 2, 3, 10, 30]) };
+    let rounds = if k.max(r) > 1000 { 2 } else { *rng.pick(if crate::thorough() { &[1usize, 2, 3, 10, 30, 100][..] } else { &[1usize, 2, 3, 10, 30][..] }) };
     let desc = format!("k={k} r={r} rate={} size={size} api={} rounds={rounds}", rate.name(), api.name());
     let res = guarded(|| {
         let mut dec = match codec::make_dec(api, k, r, size, None) {
